@@ -45,6 +45,7 @@ type letter struct {
 	Proposer int    // index into the validator set; -1 = unknown address
 	Evidence string // "" | dupvote:<i> | unknown | lca:<i> | double:<i>
 	Round    *roundSpec // runtime round: ExecutorCommit transactions built from the current runtime state
+	VRF      *vrfSpec   // VRF proofs over the current alpha
 }
 
 type world struct {
@@ -91,6 +92,9 @@ type bundle struct {
 	// meaningful in a single-goroutine process built with the runtime overlay).
 	mapOrder bool
 	blockNo  int
+	// VRF worlds: the nodes that submit proofs in "auto" blocks (set by a vrf-policy letter)
+	vrfWho       []int
+	vrfPolicySet bool
 }
 
 func (w *world) newBundle(specs []rspec) (*bundle, error) {
@@ -224,6 +228,9 @@ func (b *bundle) buildBlock(l *letter) *chain.Block {
 	txs := l.Txs
 	if l.Round != nil {
 		txs = append(append([]txT{}, txs...), b.roundTxs(l.Round)...)
+	}
+	if l.VRF != nil {
+		txs = append(append([]txT{}, txs...), b.vrfTxs(l.VRF)...)
 	}
 	for _, t := range txs {
 		if t.Raw != nil {
